@@ -1085,7 +1085,7 @@ class Data(BaseCartesianData):
         else:
             component_id = ComponentID(label, parent=self)
 
-        if len(self._components) == 0:
+        if len(self._components) == 0 and not isinstance(component, CoordinateComponent):
             # TODO: make sure the following doesn't raise a componentsraised message
             self._create_pixel_and_world_components(ndim=component.ndim)
 
@@ -1572,8 +1572,16 @@ class Data(BaseCartesianData):
         **not** copied.
         """
 
-        old_labels = [cid.label for cid in self.components]
-        new_labels = [cid.label for cid in data.components]
+        # Pixel and world coordinate components belong to each dataset and are
+        # not matched by label: they are kept as they are, or re-generated
+        # below if the number of dimensions changes.
+        old_cids = [cid for cid in self.components
+                    if not isinstance(self._components[cid], CoordinateComponent)]
+        new_cids = [cid for cid in data.components
+                    if not isinstance(data._components[cid], CoordinateComponent)]
+
+        old_labels = [cid.label for cid in old_cids]
+        new_labels = [cid.label for cid in new_cids]
 
         if len(old_labels) == len(set(old_labels)):
             old_labels = set(old_labels)
@@ -1586,30 +1594,42 @@ class Data(BaseCartesianData):
             raise ValueError("Non-unique component labels in new data")
 
         # Remove components that don't have a match in new data
-        for cname in old_labels - new_labels:
-            cid = self.find_component_id(cname)
-            self.remove_component(cid)
+        for cid in old_cids:
+            if cid.label not in new_labels:
+                self.remove_component(cid)
+
+        # If the number of dimensions changes, the existing pixel and world
+        # components can no longer be used and are re-generated
+        ndim_changed = len(data._shape) != len(self._shape)
+        if ndim_changed:
+            self.coords = None
+            for cid in self._pixel_component_ids[:]:
+                self.remove_component(cid)
+                self._pixel_component_ids.remove(cid)
 
         # Update shape
         self._shape = data._shape
 
+        if ndim_changed:
+            self._update_pixel_components(self.ndim)
+
         # Update components that exist in both. Note that we can't just loop
         # over old_labels & new_labels since we need to make sure we preserve
         # the order of the components, and sets don't preserve order.
+        new_by_label = dict((cid.label, cid) for cid in new_cids)
         for cid in self.components:
             cname = cid.label
-            if cname in old_labels & new_labels:
-                comp_old = self.get_component(cname)
-                comp_new = data.get_component(cname)
+            if cname in old_labels & new_labels and cid in old_cids:
+                comp_old = self.get_component(cid)
+                comp_new = data.get_component(new_by_label[cname])
                 comp_old._data = comp_new._data
 
         # Add components that didn't exist in original one. As above, we try
         # and preserve the order of components as much as possible.
-        for cid in data.components:
+        for cid in new_cids:
             cname = cid.label
             if cname in new_labels - old_labels:
-                cid = data.find_component_id(cname)
-                comp_new = data.get_component(cname)
+                comp_new = data.get_component(cid)
                 self.add_component(comp_new, cid.label)
 
         # Update data label
